@@ -10,7 +10,9 @@ Require Import Kinds PyStr Line Matcher Ast Builder BuilderSafe AstIds Automaton
 Definition fresh3 (i i' : nat) : list elem := [].
 
 Lemma c_nodup r : pnodup (cpat r) = true. Proof. destruct r; reflexivity. Qed.
-Lemma c_rfree r : crfree r = true -> cpat r = []. Proof. destruct r; try discriminate; reflexivity. Qed.
+Lemma c_rfree r : crfree r = true -> cpat r = []. Proof. discriminate. Qed.
+Lemma c_xr r k1 k2 : In (k1, k2) (cxr r) -> key_beq k1 k2 = false.
+Proof. destruct r; cbn; try tauto. intros [H|[]]. inversion H; subst. reflexivity. Qed.
 Lemma c_tfree k t : ctfree k = true -> ic3 (KT k, VTok t) = []. Proof. destruct k; try discriminate; reflexivity. Qed.
 Lemma ic3_rule x v : ic3 (KR x, v) = vsrc v. Proof. destruct v; reflexivity. Qed.
 Lemma c_trans af n c i v i' : cnrel3 af n -> ready af -> transform_node n c i = TOk v i' ->
@@ -23,7 +25,7 @@ Qed.
 Lemma c_fresh af n c i v i' : crfree (af_rule af) = true -> cnrel3 af n -> transform_node n c i = TOk v i' -> fresh3 i i' = [].
 Proof. reflexivity. Qed.
 
-Notation csrel3 := (csrel ic3 cpat).
+Notation csrel3 := (csrel ic3 cpat cxr).
 Notation stack3 := (stack_c ic3).
 
 (* the tokens a path builds, with the kind each was matched as *)
@@ -77,10 +79,10 @@ Proof.
   destruct IH as [(rec & Hl & S & Ce & Cc) Ft].
   pose proof kappa_ok as G. unfold ord_ok in G. apply andb_prop in G as [_ G]. rewrite forallb_forall in G.
   specialize (G x Hx). rewrite Hid, Hl in G. rewrite forallb_forall in G. specialize (G y Hy).
-  destruct (o_prods cpat crfree ctfree (t_kind y) (t_prods y) rec) as [stk'|] eqn:D; [|discriminate].
+  destruct (o_prods cpat crfree ctfree cxr (t_kind y) (t_prods y) rec) as [stk'|] eqn:D; [|discriminate].
   destruct (dlookup (t_tgt y) kappa) as [rec'|] eqn:Hl'; [|discriminate].
   pose proof Ht as [[Mt _] _]. rewrite bops_bsteps in Hb.
-  destruct (o_steps ic3 cpat crfree ctfree fresh3 c_nodup c_rfree c_tfree c_trans c_fresh _ _ Mt _ _ _ _ _ D Hb S) as (S' & _ & C').
+  destruct (o_steps ic3 cpat crfree ctfree cxr fresh3 c_nodup c_xr c_rfree c_tfree c_trans c_fresh _ _ Mt _ _ _ _ _ D Hb S) as (S' & _ & C').
   assert (Pk : path_kts (l ++ [(t, y)]) = path_kts l ++ repeat (t_kind y, t) (count_pb (t_prods y))).
   { unfold path_kts. rewrite flat_map_app. cbn. now rewrite app_nil_r. }
   split.
@@ -96,7 +98,7 @@ Proof.
   pose proof kappa_ok as G. unfold ord_ok in G. apply andb_prop in G as [G _].
   destruct (dlookup Table.start_state kappa) as [[|f [|? ?]]|] eqn:Hl; try discriminate.
   exists [f]. split; [exact Hl|]. split; [|split; reflexivity].
-  apply (csrel_weaken ic3 cpat [aframe0]); [cbn; now rewrite G|].
+  apply (csrel_weaken ic3 cpat cxr [aframe0]); [cbn; now rewrite G|].
   exists [Node (KR RGherkinDocument) []], (Node KNone []). split; [reflexivity|]. split; [|reflexivity].
   constructor; [apply cnrel_fresh | constructor].
 Qed.
